@@ -1,4 +1,5 @@
 import QP.Base
+import QP.Model.C14
 /-!
 # C15 — volatile repetition counts: marking, update, merge
 
@@ -179,6 +180,28 @@ def RepDef.prod (p c : RepDef) : RepDef :=
 def RepDef.roots : RepDef → List Name
   | .const _ => []
   | .vol e s => e.vars.flatMap s.roots
+
+/-! ## float-valued counts
+
+Count expressions over float parameters (`'t_hold / t_unit'`) evaluate to a float `q` (an exact rational).  Both
+code paths turn it into a count with `int(round(q))`: `checked_int_cast` at instantiation
+(`RepetitionPulseTemplate.get_repetition_count_value`) and `VolatileRepetitionCount.__int__` on update; Python's
+`round` is `roundHalfEven` of the C14 model; negative values are clamped to 0.  Values farther than the
+tolerance `1e-6` from an integer are no legal counts (instantiation raises, the update warns). -/
+
+/-- the repetition count of the float value `q` -/
+def floatCount (q : Rat) : Nat := (QP.C14.roundHalfEven q).toNat
+
+/-- `is_integer` / `checked_int_cast` tolerance -/
+def withinTolerance (q : Rat) : Bool :=
+  let d := q - (QP.C14.roundHalfEven q : Rat)
+  decide (d < 1 / 1000000) && decide (-d < 1 / 1000000)
+
+/-- the judge for a float-valued count: the observed count must be `floatCount q` -/
+def judgeFloatCount (q : Rat) (obs : Nat) : Sexp :=
+  if !withinTolerance q then .list [.atom "outside", ofNat (floatCount q)]
+  else if obs = floatCount q then .list [.atom "ok", ofNat (floatCount q)]
+  else .list [.atom "violates", ofNat (floatCount q)]
 
 /-! ## programs -/
 
@@ -629,6 +652,10 @@ def handle : List Sexp → Sexp
       match parseAssign new, parseVpos vpos, parseCells cells with
       | some new, some vpos, some cells => handleTable new vpos cells
       | _, _, _ => err "c15-bad-request"
+  | [.atom "fcount", q, obs] =>
+      match rat? q, nat? obs with
+      | some q, some obs => judgeFloatCount q obs
+      | _, _ => err "c15-bad-request"
   | [.atom "flags", pt, .list params, .list vol] =>
       match parsePT pt, parseAssign params, vol.mapM parseName with
       | some pt, some params, some vol => .list [atom "flags", ofBool (pt.inside (.dict params vol))]
